@@ -9,7 +9,7 @@ import serverlib as sl
 
 
 def acl_gen(r, thorough):
-    return sl.acl_histories(r, thorough, types=("read",)) + sl.stalled_resume_histories(r, thorough)
+    return sl.acl_histories(r, thorough, types=("read",)) + sl.stalled_resume_histories(r, thorough) + sl.two_list_histories(r, thorough)
 
 
 def router_contention(thorough, violations, stats):
